@@ -258,6 +258,10 @@ func (p *Parser) ParseVCL() (*ast.VCL, error) {
 			vcl.Statements = append(vcl.Statements, stmt)
 		}
 	}
+	// The comments before EOF lead no token: keep them, otherwise the formatter drops them
+	if len(p.curToken.Leading) > 0 {
+		vcl.Trailing = p.curToken.Leading
+	}
 
 	return vcl, nil
 }
